@@ -121,7 +121,7 @@ func qfNames(t *Term) []string {
 func (s *State) instantiate(key string, abs *Term) {
 	if s.spec {
 		// reads made while a contract is evaluated are places where later facts may be needed too
-		if r := s.root; r != nil && !r.spec && !abs.hasBound {
+		if r := s.root; logSpecReads && r != nil && !r.spec && !abs.hasBound {
 			r.logRead(key, abs)
 		}
 		return
@@ -167,11 +167,23 @@ func (s *State) addInst(inst *Term) {
 		// replayed from a snapshot, are not logged again, and a fact that appears while replaying is replayed at
 		// most two levels deep.)
 		if s.replayDepth < 2 {
-			s.replayDepth++
-			for _, rd := range append([]traceRead{}, s.readLog...) {
-				s.instantiate(rd.key, rd.abs)
+			keys := map[string]bool{}
+			qfMu.Lock()
+			for _, f := range allQFacts {
+				if f.QF.Leaf == n {
+					keys[f.Key] = true
+				}
 			}
-			s.replayDepth--
+			qfMu.Unlock()
+			if len(keys) > 0 {
+				s.replayDepth++
+				for _, rd := range append([]traceRead{}, s.readLog...) {
+					if keys[rd.key] {
+						s.instantiate(rd.key, rd.abs)
+					}
+				}
+				s.replayDepth--
+			}
 		}
 	}
 }
@@ -332,9 +344,18 @@ var (
 
 var plainNames = false
 
+// logSpecReads: while the unit's requires and case functions are evaluated, the places they read are remembered as
+// instantiation sites for facts that library models state later (strings.IndexByte)
+var logSpecReads = false
+
 var plainUsed = map[string]bool{}
+var plainUnique = false // set while the unit's parameters are created
 
 func fresh(prefix string) string {
+	if plainNames && !plainUnique {
+		// ghost variables: the same name is the same symbol wherever the variable is first touched
+		return prefix
+	}
 	if plainNames && !plainUsed[prefix] {
 		// parameters keep their source names in models and replays — once: a second symbol asking for the same
 		// name (two map parameters) gets a numbered one
